@@ -15,7 +15,7 @@ RULE = ("pairs of closed paths as in C12, the three operations in the default cu
         "20..240 and centres within +-100 whose outlines cross; non-trivial = outlines cross; distinct = distinct (pair, operation)")
 UNPROVED = ["that every table value is a (reversed) piece of an input segment rests on C03's cutSeg_retrace plus the `_orig` back-pointer (object attribute; sampled)",
             "distance of the straight fall-back edges to the input outlines (depends on ClipperSpec) — sampled",
-            "sentence 2 (connected closed contours with polygon-mode region semantics) is known finding K2: sampled and reported, not proved"]
+            "sentence 2: connectivity is known finding K2 (reported as such); the region part is sampled as agreement (within 1.5 units, both directions) between the outline traced by the curve-preserving result and by the polygon-mode result"]
 ASSUMPTIONS = ["ClipperSpec (pyclipper computes the requested combination)", "point keys of the reconstruction table compare exactly (integer-valued floats)"]
 LEVEL_TEXT = ("theorems for EVERY pyclipper answer and EVERY reconstruction table: recon_members (each result segment is a table value or a straight edge between two consecutive "
               "clipper vertices — nothing else can appear), wrapEdges_closed, no_polygons_no_paths; with C03 (pieces retrace the input segment) this gives sentence 1. "
@@ -74,6 +74,8 @@ def check_pair(a, b, seed):
             return "intersection of disjoint shapes is not empty"
         for p in res:
             segs = p.asSegments()
+            if len(segs) > 1 and oc.seg_pts(segs[0]) == oc.seg_pts(segs[-1]):
+                return "%s: a result contour ends with the segment it starts with (the same piece of an input twice): %r" % (op, oc.seg_pts(segs[0]))
             for s in segs:
                 sp = oc.seg_pts(s)
                 for q in seg_samples(sp):
@@ -86,8 +88,62 @@ def check_pair(a, b, seed):
                     gaps = (op, g)
     if [oc.seg_pts(s) for s in A.asSegments()] != beforeA or [oc.seg_pts(s) for s in B.asSegments()] != beforeB:
         return "an input was modified"
+    simple_crossing = a["kind"] != "contour" and b["kind"] != "contour" and crosses(fa, fb)
+    if simple_crossing:
+        msg = region_check(A, B, fa, fb, seed)
+        if msg:
+            return msg
     if gaps is not None and a["kind"] != "contour" and b["kind"] != "contour" and crosses(fa, fb):
         return "K2"     # sentence 2: result not connected (gap %r in %s)" % (gaps[1], gaps[0])
+    return None
+
+
+def seg_dist(poly_open, q):
+    """distance from q to an open polyline"""
+    best = float("inf")
+    for (ax, ay), (bx, by) in zip(poly_open, poly_open[1:]):
+        dx, dy = bx - ax, by - ay
+        L2 = dx * dx + dy * dy
+        t = 0.0 if L2 == 0 else max(0.0, min(1.0, ((q[0] - ax) * dx + (q[1] - ay) * dy) / L2))
+        d = math.hypot(q[0] - (ax + t * dx), q[1] - (ay + t * dy))
+        if d < best:
+            best = d
+    return best
+
+
+def region_check(A, B, fa, fb, seed):
+    """sentence 2, region part, in a form that does not depend on how the (possibly disconnected: K2) pieces are ordered:
+    the curve-preserving result and the polygon-mode result trace the same outline — every sampled point of either lies
+    within 1 unit (+ 0.5 sampling / flattening slack) of the other"""
+    tol = 1.5
+    for op in cc.OPS:
+        curve = getattr(A, op)(B)
+        flat = getattr(A, op)(B, flat=True)
+        cpolys = []
+        for p in curve:
+            for sgm in p.asSegments():
+                cpolys.append(seg_samples(oc.seg_pts(sgm), 33) if len(sgm.points) > 2 else [(sgm.start.x, sgm.start.y), (sgm.end.x, sgm.end.y)])
+        fpolys = []
+        for p in flat:
+            v = cc.path_vertices(p)
+            fpolys.append(v + v[:1])
+        if bool(cpolys) != bool(fpolys):
+            return "%s: curve-preserving mode returns %d segment(s), polygon mode %d contour(s)" % (op, len(cpolys), len(fpolys))
+        for poly in cpolys:
+            for q in poly:
+                d = min(seg_dist(f, q) for f in fpolys)
+                if d > tol and max(cc.dist_poly(fa, q), cc.dist_poly(fb, q)) <= 2.5:
+                    return "K10"
+                if d > tol:
+                    return "%s: point %r of the curve-preserving result is %.2f away from the polygon-mode result's outline (> %.1f)" % (op, q, d, tol)
+        for f in fpolys:
+            for (x0, y0), (x1, y1) in zip(f, f[1:]):
+                for q in ((x0, y0), ((x0 + x1) / 2, (y0 + y1) / 2)):
+                    d = min(seg_dist(c, q) for c in cpolys)
+                    if d > tol and max(cc.dist_poly(fa, q), cc.dist_poly(fb, q)) <= 2.5:
+                        return "K10"
+                    if d > tol:
+                        return "%s: point %r of the polygon-mode result's outline is %.2f away from every segment of the curve-preserving result (> %.1f)" % (op, q, d, tol)
     return None
 
 
@@ -99,7 +155,7 @@ def search(ctx, budget):
     nontriv = 0
     for i in range(n):
         simple = i % 2 == 0
-        a, b = cc.rand_shape(rng, simple=simple), cc.rand_shape(rng, simple=simple)
+        a, b = cc.rand_pair(rng, i, simple=simple)
         inp = {"a": a, "b": b, "seed": 0}
         if repr((a, b)) not in seen:
             seen.add(repr((a, b)))
@@ -107,7 +163,7 @@ def search(ctx, budget):
         msg = check_pair(a, b, 0)
         if msg:
             viol.append({"what": msg, "input": inp})
-            if len([v for v in viol if v["what"] != "K2"]) >= 5:
+            if len([v for v in viol if v["what"] not in ("K2", "K10")]) >= 5:
                 break
         if len(samples) < 3:
             samples.append(inp)
@@ -115,7 +171,7 @@ def search(ctx, budget):
 
 
 def classify(v, entry):
-    return entry["id"] == "K2" and v.get("what") == "K2"
+    return entry["id"] in ("K2", "K10") and v.get("what") == entry["id"]
 
 
 def replay(v):
